@@ -4,11 +4,11 @@
 package simchain
 
 import (
-	"sort"
 	"crypto/sha256"
 	"encoding/binary"
 	"errors"
 	"fmt"
+	"sort"
 	"time"
 
 	"github.com/btcsuite/btcd/chaincfg"
